@@ -1,4 +1,5 @@
 import Mathlib.Algebra.Field.Basic
+import Falcon.Gen.Params
 import Mathlib.Tactic.Ring
 import Mathlib.Tactic.FieldSimp
 
@@ -14,6 +15,14 @@ whole Gram/LDL/normalise/ffSampling chain per signature.  NOT decided: closeness
 spherical discrete Gaussian (Klein/GPV theorem and its smoothing-parameter condition).
 -/
 namespace Falcon.Props.C10
+
+/-- the standard deviations the signer uses are the specification's (Table 3.3): σ = 165.7366171829776 /
+    168.38857144654395, σ_min = 1.2778336969128337 / 1.298280334344292 (IEEE bit patterns of the literals), and
+    key generation accepts a basis only below 1.17²·q (so every leaf width is at least σ_min) -/
+theorem sampler_parameters_are_the_specifications :
+    Gen.sigmaBits512 = 4640035355371950575 ∧ Gen.sigminBits512 = 4608433670533905013 ∧
+    Gen.sigmaBits1024 = 4640128662717522458 ∧ Gen.sigminBits1024 = 4608525754002622308 ∧
+    Gen.gammaBoundBits = 4608843796702554384 := ⟨rfl, rfl, rfl, rfl, rfl⟩
 
 variable {K : Type} [Field K]
 
